@@ -27,26 +27,42 @@ def rule_a(ctx):
     cc = ctx.pfn('Recv::credit_consumed_by')
     guard_error(ctx, 'a', 'stream_window_exceeded', cc, lambda o, a, b: o == 'Lt' and D.has_field(a, 'sent_max_stream_data') and D.has_param(b, name='offset'),
                 code='FLOW_CONTROL_ERROR', what='offset > sent_max_stream_data')
+    # received + new_bytes > max_data, where new_bytes IS offset (-) self.end (operand order matters: the reverse is 0 for every advancing frame)
     guard_error(ctx, 'a', 'connection_window_exceeded', cc,
-                lambda o, a, b: o == 'Lt' and D.has_param(a, name='max_data') and b[0] == 'bin' and b[1] == 'Add' and D.has_param(b, name='received'),
+                lambda o, a, b: o == 'Lt' and _is_param(a, 'max_data') and b[0] == 'bin' and b[1] == 'Add' and
+                ((_is_param(b[2], 'received') and _is_new_bytes(b[3])) or (_is_param(b[3], 'received') and _is_new_bytes(b[2]))),
                 code='FLOW_CONTROL_ERROR', what='received + new_bytes > max_data')
-    rd = [x for _, x in ret_descs(F, cc)]
-    okv = any(D.has_call(x, 'u64::saturating_sub') and D.has_param(x, name='offset') and D.has_field(x, 'end') for x in rd)
-    ctx.check(okv, 'a', 'new_bytes_is_offset_minus_end', cc, cc.where(), 'Ok(offset.saturating_sub(self.end))', 'credit_consumed_by no longer returns offset (-) end')
+    oks = [x[3][0] for _, r in ret_descs(F, cc) for x in flat(r) if x[0] == 'agg' and x[2].endswith('Result::Ok') and x[3]]
+    okv = bool(oks) and all(_is_new_bytes(x) for x in oks)
+    ctx.check(okv, 'a', 'new_bytes_is_offset_minus_end', cc, cc.where(), 'Ok(offset.saturating_sub(self.end))',
+              'credit_consumed_by no longer returns offset (-) self.end: ' + ' | '.join(D.render(x)[:80] for x in oks))
     ing = ctx.pfn('Recv::ingest')
     ins = [c.bb for c in ing.calls_to('Assembler::insert')]
-    guard_error(ctx, 'a', 'offset_above_2_62', ing, lambda o, a, b: o == 'Le' and D.has_call(a, 'u64::pow') and b[0] == 'bin' and b[1] == 'Add' and D.has_field(b, 'offset'),
-                code='FLOW_CONTROL_ERROR', protect=ins, what='end >= 2^62')
-    guard_error(ctx, 'a', 'data_beyond_final_size', ing, lambda o, a, b: o == 'Lt' and _is_final(a) and _is_end(b),
-                code='FINAL_SIZE_ERROR', protect=ins, what='end > final_offset')
-    guard_error(ctx, 'a', 'fin_at_other_offset', ing, lambda o, a, b: o == 'Ne' and ((_is_final(a) and _is_end(b)) or (_is_final(b) and _is_end(a))),
-                code='FINAL_SIZE_ERROR', protect=ins, what='fin && end != final_offset')
+    ctx.floor('a', 'ingest_buffering_sites', len(ins), 1)
+    e = guard_error(ctx, 'a', 'offset_above_2_62', ing, lambda o, a, b: o == 'Le' and D.has_call(a, 'u64::pow') and b[0] == 'bin' and b[1] == 'Add' and D.has_field(b, 'offset'),
+                    code='FLOW_CONTROL_ERROR', protect=ins, what='end >= 2^62')
+    _guard_before(ctx, 'a', 'offset_above_2_62', ing, e, ins, 'end >= 2^62', True)
+    e = guard_error(ctx, 'a', 'data_beyond_final_size', ing, lambda o, a, b: o == 'Lt' and _is_final(a) and _is_end(b),
+                    code='FINAL_SIZE_ERROR', protect=ins, what='end > final_offset')
+    _guard_before(ctx, 'a', 'data_beyond_final_size', ing, e, ins, 'end > final_offset', _final_known)
+    e = guard_error(ctx, 'a', 'fin_at_other_offset', ing, lambda o, a, b: o == 'Ne' and ((_is_final(a) and _is_end(b)) or (_is_final(b) and _is_end(a))),
+                    code='FINAL_SIZE_ERROR', protect=ins, what='fin && end != final_offset')
+    _guard_before(ctx, 'a', 'fin_at_other_offset', ing, e, ins, 'fin && end != final_offset', _final_known)
+    # a FIN establishes the final size: it may not lie below data already received (sibling of the check in Recv::reset)
+    size_stores = [w.bb for w in field_writes(F, 'recv::RecvState', 'size', crate='quinn_proto') if F.root_of(w.body).id == ing.id]
+    ctx.floor('a', 'final_size_stores_in_ingest', len(size_stores), 1)
+    e = guard_error(ctx, 'a', 'fin_below_received_data', ing, lambda o, a, b: o == 'Lt' and _is_end(a) and b[0] == 'field' and b[2] == 'end',
+                    code='FINAL_SIZE_ERROR', protect=size_stores + ins, what='fin && end < self.end')
+    _guard_before(ctx, 'a', 'fin_below_received_data', ing, e, size_stores + ins, 'fin && end < self.end', _final_known)
     rs = ctx.pfn('Recv::reset')
     st = [w.bb for w in field_writes(F, 'recv::Recv', 'state', crate='quinn_proto') if F.root_of(w.body).id == rs.id and w.kind == 'assign']
-    guard_error(ctx, 'a', 'reset_final_size_inconsistent', rs, lambda o, a, b: o == 'Ne' and (D.has_call(a, 'Recv::final_offset') or D.has_call(b, 'Recv::final_offset')) and (D.has_param(a, name='final_offset') or D.has_param(b, name='final_offset')),
-                code='FINAL_SIZE_ERROR', protect=st, what='final_offset != known final size')
-    guard_error(ctx, 'a', 'reset_below_high_water_mark', rs, lambda o, a, b: o == 'Lt' and D.has_param(a, name='final_offset') and D.has_field(b, 'end'),
-                code='FINAL_SIZE_ERROR', protect=st, what='end > final_offset')
+    ctx.floor('a', 'reset_state_stores', len(st), 1)
+    e = guard_error(ctx, 'a', 'reset_final_size_inconsistent', rs, lambda o, a, b: o == 'Ne' and (D.has_call(a, 'Recv::final_offset') or D.has_call(b, 'Recv::final_offset')) and (D.has_param(a, name='final_offset') or D.has_param(b, name='final_offset')),
+                    code='FINAL_SIZE_ERROR', protect=st, what='final_offset != known final size')
+    _guard_before(ctx, 'a', 'reset_final_size_inconsistent', rs, e, st, 'final_offset != known final size', _final_known)
+    e = guard_error(ctx, 'a', 'reset_below_high_water_mark', rs, lambda o, a, b: o == 'Lt' and D.has_param(a, name='final_offset') and D.has_field(b, 'end'),
+                    code='FINAL_SIZE_ERROR', protect=st, what='end > final_offset')
+    _guard_before(ctx, 'a', 'reset_below_high_water_mark', rs, e, st, 'end > final_offset', _final_known)
     # the high-water-mark check may not be skipped for stopped streams: its branch must not be conditioned on `stopped`
     for br, truth, tgt in guard_edges(ctx, rs, lambda o, a, b: o == 'Lt' and D.has_param(a, name='final_offset') and D.has_field(b, 'end')):
         cond = [b2 for b2 in branches(F, rs) if rs.dominates(b2.bb, br.bb) and b2.bb != br.bb and D.has_field(b2.desc, 'stopped')]
@@ -58,15 +74,86 @@ def rule_a(ctx):
                 code='STREAM_STATE_ERROR', what='index >= next[Bi]')
     dr = ctx.pfn('DatagramState::received')
     push = [c.bb for c in dr.calls_to('VecDeque::push_back')]
-    guard_error(ctx, 'a', 'datagram_larger_than_window', dr, lambda o, a, b: o == 'Lt' and (D.has_param(a, name='window') or D.render(a).find('window') >= 0) and b[0] == 'call' and b[1] == 'Bytes::len',
-                code='PROTOCOL_VIOLATION', protect=push, what='len > window')
+    e = guard_error(ctx, 'a', 'datagram_larger_than_window', dr, lambda o, a, b: o == 'Lt' and (D.has_param(a, name='window') or D.render(a).find('window') >= 0) and b[0] == 'call' and b[1] == 'Bytes::len',
+                    code='PROTOCOL_VIOLATION', protect=push, what='len > window')
+    _guard_before(ctx, 'a', 'datagram_larger_than_window', dr, e, push, 'len > window', True)
     # datagrams disabled -> PROTOCOL_VIOLATION
     eb = err_code_calls(ctx, dr, 'PROTOCOL_VIOLATION')
     ctx.check(len(eb) >= 2, 'a', 'datagram_disabled_rejected', dr, dr.where(), '%d PROTOCOL_VIOLATION sites' % len(eb), 'DatagramState::received lost one of its PROTOCOL_VIOLATION exits (disabled / too large)')
     rc = ctx.pfn('Connection::read_crypto')
     cins = [c.bb for c in rc.calls_to('Assembler::insert')]
-    guard_error(ctx, 'a', 'crypto_buffer_exceeded', rc, lambda o, a, b: o == 'Lt' and D.has_field(a, 'crypto_buffer_size') and D.has_call(b, 'Assembler::bytes_read'),
-                code='CRYPTO_BUFFER_EXCEEDED', protect=cins, what='end - bytes_read > crypto_buffer_size')
+    ctx.floor('a', 'crypto_buffering_sites', len(cins), 1)
+    e = guard_error(ctx, 'a', 'crypto_buffer_exceeded', rc, lambda o, a, b: o == 'Lt' and D.has_field(a, 'crypto_buffer_size') and D.has_call(b, 'Assembler::bytes_read'),
+                    code='CRYPTO_BUFFER_EXCEEDED', protect=cins, what='end - bytes_read > crypto_buffer_size')
+    _guard_before(ctx, 'a', 'crypto_buffer_exceeded', rc, e, cins, 'end - bytes_read > crypto_buffer_size', True)
+
+
+def _guard_before(ctx, rule, instance, body, edges, sites, what, dom):
+    """ORDER half of clause (b): guard_error only walks forward from the violating edge, so a protected site that lies
+    BEFORE the guard is never seen.  Every live protected site needs a guard edge (br, truth, violating target) with
+      * the site cannot flow (back) into the guard's branch  -> the limit is tested before the effect, never after it;
+      * the site is reachable from the branch, but only over its pass edge;
+      * dominance: dom is True  -> the guard's branch itself dominates the site (unconditional limits);
+                   dom is a predicate over branch discriminants -> the guard is nested under an applicability test
+                   (`if let Some(final_offset) = self.final_offset()`): that test must dominate both the guard and the site.
+    No edges at all is reported by guard_error (/guard_missing)."""
+    if not edges:
+        return
+    live = body.live_blocks()
+    F = ctx.facts
+    for s in sorted({x for x in sites if x in live}):
+        why = ''
+        for br, truth, tgt in edges:
+            if br.bb in body.reachable_from(s):
+                why = 'the protected block bb%d is executed BEFORE the limit is tested at %s' % (s, br.where())
+                continue
+            if s not in body.reachable_from(br.bb) or s in body.reachable_from(tgt, avoid=[br.bb]):
+                why = 'the protected block bb%d is not (only) behind the pass edge of the guard at %s' % (s, br.where())
+                continue
+            if dom is True:
+                d_ok = body.dominates(br.bb, s)
+            else:
+                d_ok = body.dominates(br.bb, s) or any(dom(b2.desc) and body.dominates(b2.bb, br.bb) and body.dominates(b2.bb, s) for b2 in branches(F, body))
+            if not d_ok:
+                why = 'a path reaches the protected block bb%d without passing the guard at %s (or the test it is nested under)' % (s, br.where())
+                continue
+            why = None
+            break
+        ctx.check(why is None, rule, instance, body, edges[0][0].where(), '%s: guard is evaluated before protected block bb%d and dominates it' % (what, s),
+                  '%s: %s' % (what, why))
+
+
+def _final_known(d):
+    """discriminant of `self.final_offset()` (the `if let Some(final_offset) = ..` both final-size guards hang under)"""
+    return d[0] == 'discr' and d[1][0] == 'call' and d[1][1] == 'Recv::final_offset'
+
+
+def _is_param(d, name):
+    return d[0] == 'param' and d[2] == name
+
+
+def _is_self_end(d):
+    return d[0] == 'field' and d[2] == 'end' and _is_param(d[1], 'self')
+
+
+def _is_new_bytes(d):
+    """the value IS offset (-) self.end, minuend `offset`, subtrahend `self.end` (or min(offset, self.end))"""
+    if d[0] == 'call' and d[1] in ('u64::saturating_sub', 'u64::checked_sub') and len(d[3]) == 2:
+        return _is_param(d[3][0], 'offset') and _is_self_end(d[3][1])
+    if d[0] == 'call' and d[1] in ('Option::unwrap_or', 'Option::unwrap_or_default') and d[3]:
+        zero = len(d[3]) == 1 or (d[3][1][0] == 'const' and str(d[3][1][2]) in ('0', '0_u64'))
+        return zero and d[3][0][0] == 'call' and d[3][0][1] == 'u64::checked_sub' and _is_new_bytes(d[3][0])
+    if d[0] == 'bin' and d[1] == 'Sub':
+        sub = d[3]
+        mn = sub[0] == 'call' and sub[1] in ('u64::min', 'Ord::min', 'cmp::min') and len(sub[3]) == 2 and \
+            any(_is_param(x, 'offset') for x in sub[3]) and any(_is_self_end(x) for x in sub[3])
+        return _is_param(d[2], 'offset') and (_is_self_end(sub) or mn)
+    if d[0] == 'phi':
+        # if offset > self.end { offset - self.end } else { 0 }
+        alts = flat(d)
+        nz = [x for x in alts if not (x[0] == 'const' and str(x[2]) in ('0', '0_u64'))]
+        return bool(nz) and all(_is_new_bytes(x) for x in nz)
+    return False
 
 
 def _is_final(d):
@@ -154,7 +241,10 @@ def rule_c(ctx):
     st = ctx.pfn('RecvStream::stop')
     for c in st.calls_to('StreamsState::add_read_credits'):
         a = arg_desc(F, c, 1)
-        ctx.check(D.has_call(a, 'Recv::stop'), 'c', 'stop_credits_discarded_bytes', st, c.where(), D.render(a)[:100], 'stop() credits something other than Recv::stop()s read_credits')
+        # the argument IS the first component of Recv::stop()'s Ok payload — not an expression containing it (max(..), + x)
+        ctx.check(_is_ok_component(a, 'Recv::stop', '0'), 'c', 'stop_credits_discarded_bytes', st, c.where(), D.render(a)[:100],
+                  'stop() credits something other than exactly Recv::stop()s read_credits: ' + _outline(a))
+    ctx.floor('c', 'stop_credit_sites', len(st.calls_to('StreamsState::add_read_credits')), 1)
     rs = ctx.pfn('Recv::stop')
     rd = [x for _, x in ret_descs(F, rs)]
     ok = any(D.has_field(x, 'end') and D.has_call(x, 'Assembler::bytes_read') for x in rd)
@@ -162,7 +252,8 @@ def rule_c(ctx):
     rcv = ctx.pfn('StreamsState::received')
     for c in rcv.calls_to('StreamsState::add_read_credits'):
         a = arg_desc(F, c, 1)
-        ctx.check(D.has_call(a, 'Recv::ingest'), 'c', 'stopped_stream_credits_new_bytes', rcv, c.where(), D.render(a)[:100], 'credits on the stopped path are not ingest()s new_bytes')
+        ctx.check(_is_ok_component(a, 'Recv::ingest', '0'), 'c', 'stopped_stream_credits_new_bytes', rcv, c.where(), D.render(a)[:100],
+                  'credits on the stopped path are not exactly ingest()s new_bytes: ' + _outline(a))
         # only on the stopped edge: on_stream_frame(true) edge returns before
         brs = [br for br in branches(F, rcv) if D.has_field(br.desc, 'stopped')]
         okb = any(c.bb in rcv.reachable_from(br.target(1)) and c.bb not in rcv.reachable_from(br.target(0)) for br in brs)
@@ -170,8 +261,83 @@ def rule_c(ctx):
     rr = ctx.pfn('StreamsState::received_reset')
     for c in rr.calls_to('StreamsState::add_read_credits'):
         a = arg_desc(F, c, 1)
-        ok = a[0] == 'bin' and a[1] == 'Sub' and D.has_call(a[3], 'Assembler::bytes_read') and (D.has_param(a[2], name='frame') or D.render(a[2]).find('final_offset') >= 0)
-        ctx.check(ok, 'c', 'reset_credits_unread_remainder', rr, c.where(), D.render(a)[:140], 'reset credits something other than final_offset - bytes_read: ' + D.render(a)[:200])
+        # final_offset - (already credited): bytes_read for a live stream, `end` for a stopped one (stop() and the
+        # stopped-stream path of received() have credited everything received so far)
+        ok = a[0] == 'bin' and a[1] == 'Sub' and (D.has_param(a[2], name='frame') or D.render(a[2]).find('final_offset') >= 0) and a[3][0] == 'phi'
+        alts = flat(a[3]) if ok else []
+        ok = ok and len(alts) == 2 and any(D.has_call(x, 'Assembler::bytes_read') and not D.has_field(x, 'end') for x in alts) and any(x[0] == 'field' and x[2] == 'end' for x in alts)
+        ctx.check(ok, 'c', 'reset_credits_only_uncredited_remainder', rr, c.where(), D.render(a)[:160],
+                  'reset must credit final_offset - bytes_read for a live stream and final_offset - end for a stopped one (whose data was already credited): ' + D.render(a)[:200])
+        # the choice is made by `stopped`, and in the right direction: the block producing the `end` alternative is only
+        # reachable over the stopped == true edge of a branch on <recv>.stopped, the `bytes_read` one only over its false edge
+        why = _base_selected_by_stopped(F, rr, c, alts) if ok else 'the credited base is not a two-way choice between bytes_read and end'
+        ctx.check(why is None, 'c', 'reset_credit_base_selected_by_stopped', rr, c.where(), 'if stopped { end } else { bytes_read }',
+                  'the already-credited base is not chosen by the stopped flag: %s' % why)
+    ctx.floor('c', 'reset_credit_sites', len(rr.calls_to('StreamsState::add_read_credits')), 1)
+
+
+def _is_ok_component(d, callee, idx):
+    """d is exactly `<callee>(..)?.<idx>`: tuple component idx of the Ok/Continue/Some payload of a call of callee
+    (casts, moves and `?` are erased by the describer); nothing wrapped around it"""
+    if not (d[0] == 'field' and d[2] == idx):
+        return False
+    x = d[1]
+    while x[0] == 'field' and x[2] == '0' and x[1][0] == 'variant' and x[1][2] in ('Continue', 'Ok', 'Some'):
+        x = x[1][1]
+    return x[0] == 'call' and x[1] == callee
+
+
+def _outline(d):
+    """outermost operator of a descriptor, for messages"""
+    if d[0] == 'call':
+        return 'outermost node is a call of %s' % d[1]
+    if d[0] == 'bin':
+        return 'outermost node is the binary operation %s' % d[1]
+    return 'outermost node is %s %s' % (d[0], d[2] if len(d) > 2 and isinstance(d[2], str) else '')
+
+
+def _base_selected_by_stopped(F, body, call, alts):
+    """None when ok, else the reason.  alts = the two alternatives (end | bytes_read) of the subtrahend."""
+    dsc = describer(F, body)
+    # the merge local: a local with one plain store per alternative
+    blocks = None
+    for l in range(len(body.locals)):
+        defs = [df for df in body.defs_of(l) if df[0] == 'stmt']
+        if len(defs) != len(alts) or len(body.defs_of(l)) != len(defs):
+            continue
+        vals = [(dsc.rvalue(df[3], df[1], df[2], 0), df[1]) for df in defs]
+        if sorted((repr(v) for v, _ in vals)) == sorted(repr(x) for x in alts):
+            blocks = vals
+            break
+    if blocks is None:
+        return 'no local merges exactly the alternatives of the credited base'
+    live = body.live_blocks()
+    errs = []
+    for v, blk in blocks:
+        if blk not in live:
+            errs.append('an alternative is defined in dead code')
+            continue
+        is_end = v[0] == 'field' and v[2] == 'end'
+        base = v[1] if is_end else None
+        good = False
+        for br in branches(F, body):
+            inner, neg = peel_not(br.desc)
+            if not (inner[0] == 'field' and inner[2] == 'stopped'):
+                continue
+            if is_end and inner[1] != base:
+                continue  # `stopped` of another object than the one whose `end` is used
+            if not (is_end or D.has_call(v, 'Assembler::bytes_read') and any(x == inner[1] for x in D.walk(v))):
+                continue
+            t_true, t_false = br.target(0 if neg else 1), br.target(1 if neg else 0)
+            want, other = (t_true, t_false) if is_end else (t_false, t_true)
+            if want == other or not body.dominates(br.bb, call.bb):
+                continue
+            if edge_dominates(body, br.bb, want, blk) and blk not in body.reachable_from(other, avoid=[br.bb]):
+                good = True
+        if not good:
+            errs.append('the alternative `%s` is not confined to the stopped == %s edge of a branch on the stream`s stopped flag'
+                        % (D.render(v)[-40:], 'true' if is_end else 'false'))
+    return '; '.join(errs) if errs else None
 
 
 def rule_d(ctx):
@@ -215,13 +381,50 @@ def rule_e(ctx):
     for c in pp.calls_to(*targets):
         n += 1
         # result flows into Try::branch
-        tb = [x for x in pp.calls_to('Try::branch') if contains_site(arg_desc(F, x, 0), c)]
-        ctx.check(bool(tb), 'e', 'receive_errors_propagate', pp, c.where(), '%s(..)?' % short(c.f), 'the Result of %s is not propagated with `?`' % short(c.f))
+        tb = [x for x in pp.calls_to('Try::branch') if _is_result_of(arg_desc(F, x, 0), c)]
+        ctx.check(bool(tb), 'e', 'receive_errors_propagate', pp, c.where(), '%s(..)?' % short(c.f), 'the Result of %s is not propagated unchanged with `?`%s' % (short(c.f), _try_note(F, pp, c)))
     ctx.floor('e', 'propagating_calls', n, 7)
     pe = ctx.pfn('Connection::process_early_payload')
     for c in pe.calls_to('Connection::read_crypto', 'Connection::on_ack_received'):
-        tb = [x for x in pe.calls_to('Try::branch') if contains_site(arg_desc(F, x, 0), c)]
-        ctx.check(bool(tb), 'e', 'receive_errors_propagate', pe, c.where(), '%s(..)?' % short(c.f), 'the Result of %s is not propagated with `?`' % short(c.f))
+        tb = [x for x in pe.calls_to('Try::branch') if _is_result_of(arg_desc(F, x, 0), c)]
+        ctx.check(bool(tb), 'e', 'receive_errors_propagate', pe, c.where(), '%s(..)?' % short(c.f), 'the Result of %s is not propagated unchanged with `?`%s' % (short(c.f), _try_note(F, pe, c)))
+    ctx.floor('e', 'early_propagating_calls', len(pe.calls_to('Connection::read_crypto', 'Connection::on_ack_received')), 2)
+
+
+# Result combinators that hand the Err of their receiver through unchanged
+_ERR_PRESERVING = ('Result::map', 'Result::inspect', 'Result::inspect_err', 'Result::and_then', 'Result::and')
+_ERR_CONVERT = ('From::from', 'Into::into', 'convert::identity')
+
+
+def _is_result_of(d, call):
+    """the operand of `?` IS the Result of `call`, possibly through combinators that cannot replace or drop an Err
+    (`or`, `or_else`, `unwrap_or*`, `ok`, `map_err(<other code>)` are NOT transparent)"""
+    for x in flat(d):
+        while True:
+            if is_site(x, call):
+                return True
+            if x[0] == 'call' and x[3] and (x[1] in _ERR_PRESERVING or _trait(x[1]) in _ERR_PRESERVING):
+                x = x[3][0]
+                continue
+            if x[0] == 'call' and x[1] == 'Result::map_err' and len(x[3]) == 2 and x[3][1][0] == 'const' and x[3][1][1] == 'fn' and \
+                    (x[3][1][2] in _ERR_CONVERT or _trait(x[3][1][2]) in _ERR_CONVERT):
+                # map_err(Into::into): a type conversion of the same error, not a replacement
+                x = x[3][0]
+                continue
+            break
+    return False
+
+
+def _trait(sh):
+    return sh.split(' as ', 1)[1].replace('>::', '::', 1) if sh.startswith('<') and ' as ' in sh and '>::' in sh else sh
+
+
+def _try_note(F, body, call):
+    for x in body.calls_to('Try::branch'):
+        a = arg_desc(F, x, 0)
+        if contains_site(a, call):
+            return ' (it reaches a `?` only through %s, which can replace or drop the error)' % (a[1] if a[0] == 'call' else a[0])
+    return ''
 
 
 def rule_f(ctx):
@@ -247,7 +450,7 @@ def rule_f(ctx):
                       'credit_consumed_by is not given the caller-supplied (received, max_data)')
     # data_recvd += new bytes on both accepting paths
     for w, v in store_values(ctx, SS, 'data_recvd', in_fn=rcv):
-        ok = v[0] == 'call' and v[1] == 'u64::saturating_add' and D.has_field(v[3][0], 'data_recvd') and D.has_call(v[3][1], 'Recv::ingest')
+        ok = v[0] == 'call' and v[1] == 'u64::saturating_add' and D.has_field(v[3][0], 'data_recvd') and _is_ok_component(v[3][1], 'Recv::ingest', '0')
         ctx.check(ok, 'f', 'data_recvd_counts_new_bytes', rcv, w.where(), D.render(v)[:140], 'data_recvd is not raised by ingest()s new_bytes: ' + D.render(v)[:200])
     ctx.floor('f', 'data_recvd_stores_in_received', len(store_values(ctx, SS, 'data_recvd', in_fn=rcv)), 1)
     for w, v in store_values(ctx, SS, 'data_recvd', in_fn=rr):
@@ -262,16 +465,18 @@ def rule_f(ctx):
         tb = [x for x in rcv.calls_to('Try::branch') if contains_site(arg_desc(F, x, 0), c)]
         ok = bool(tb)
         path = None
-        for t in tb:
-            # continue edge of `?` = the switch target for ControlFlow::Continue (variant 0)
-            for br in branches(F, rcv):
-                if br.desc[0] == 'discr' and contains_site(br.desc[1], t):
-                    cont = br.target(0)
-                    path = path_avoiding(rcv, [cont], rcv.return_blocks(), sts)
-                    if path is not None:
-                        ok = False
-        ctx.check(ok, 'f', 'accepted_frame_always_accounted', rcv, c.where(), 'every path from ingest()? Ok to return stores data_recvd',
-                  'a path accepts stream data without adding it to data_recvd: ' + (fmt_path(rcv, path) if path else 'no `?` found'))
+        nbr = 0
+        for br in branches(F, rcv):
+            # `?` on the ingest result (Try::branch is erased by the describer): variant 0 = Continue / Ok
+            if br.desc[0] == 'discr' and (contains_site(br.desc[1], c) or any(contains_site(br.desc[1], t) for t in tb)):
+                nbr += 1
+                cont = br.target(0)
+                p = path_avoiding(rcv, [cont], rcv.return_blocks(), sts)
+                if p is not None:
+                    ok = False
+                    path = p
+        ctx.check(ok and nbr >= 1, 'f', 'accepted_frame_always_accounted', rcv, c.where(), 'every path from ingest()? Ok to return stores data_recvd',
+                  'a path accepts stream data without adding it to data_recvd: ' + (fmt_path(rcv, path) if path else 'no `?` on the ingest result found'))
 
 
 def run(ctx):
